@@ -205,10 +205,15 @@ class LinkSystem(System):
                             for lctx in ("top", "quote"):
                                 yield {"targets": targets, "tctx": tctx, "links": [(f1, n1, lctx), (f2, n2, "top")], "order": "after"}
 
+    def render(self, text):
+        doc, warn = docutils_doctree(text, SETTINGS)
+        return doc, warn, parse_warnings(warn)
+
+    front_end = "docutils"
+
     def run(self, case):
         text, infos, recs = build(case)
-        doc, warn = docutils_doctree(text, SETTINGS)
-        ws = parse_warnings(warn)
+        doc, warn, ws = self.render(text)
         viol = []
         nt = False
         kinds = tuple(k for k, _ in case["targets"])
@@ -218,7 +223,8 @@ class LinkSystem(System):
 
             def bad(clause, msg, **sig):
                 viol.append(violation(clause, {"clause": clause, "form": form, "target_kind": tgt["kind"] if tgt else None,
-                                               "target_ctx": case["tctx"] if tgt else None, **sig},
+                                               "target_ctx": case["tctx"] if tgt else None,
+                                               **({"front_end": self.front_end} if self.front_end != "docutils" else {}), **sig},
                                       f"link {link_md(form, name, j)[0]} ({lctx}, {case['order']}) with targets {case['targets']} in {case['tctx']}: {msg}",
                                       text=text, warnings=warn, doctree=doc.pformat()[:4000]))
 
@@ -284,5 +290,50 @@ class LinkSystem(System):
         return case
 
 
+class SphinxLinkSystem(LinkSystem):
+    """the one-link space (targets and link in top / quote context) through the in-process Sphinx front end"""
+
+    jobs = 8
+    front_end = "sphinx"
+
+    def __init__(self, tier):
+        super().__init__(tier, "one-link-sphinx", False)
+        self.description = ("the one-link documents with targets and link at top level or in a quote, through an in-process Sphinx application "
+                            "(read + post-transforms: ResolveAnchorIds, then MystReferenceResolver and the std domain)")
+
+    def prepare(self, ctx):
+        self.root = ctx.scratch / "c09sx"
+        self.root.mkdir(exist_ok=True)
+
+    def worker_init(self, wid):
+        from ..drivers import SphinxDriver
+
+        self.drv = SphinxDriver(self.root / f"w{wid}", conf=f"myst_enable_extensions={EXT!r}\nmyst_heading_anchors=3\n")
+
+    def cases(self):
+        ctxs = ("top", "quote") if self.tier == "quick" else ("top", "quote", "list", "note")
+        for c in super().cases():
+            if c["tctx"] in ctxs and c["links"][0][2] in ctxs:
+                yield c
+
+    def render(self, text):
+        from ..drivers import parse_sphinx_warnings
+
+        if not hasattr(self, "drv"):
+            self.worker_init(99)
+        doc, warn = self.drv.read("t", text, resolve=True)
+        ws = parse_sphinx_warnings(warn)
+        # present the ids the way the docutils document object does
+        if not getattr(doc, "ids", None):
+            doc.ids = {}
+        for n in doc.findall(lambda n: isinstance(n, nodes.Element) and n.get("ids")):
+            for i in n["ids"]:
+                doc.ids.setdefault(i, n)
+        for r in doc.findall(nodes.reference):
+            if not r.get("refid") and str(r.get("refuri", "")).startswith("#"):
+                r["refid"] = r["refuri"][1:]
+        return doc, warn, ws
+
+
 def systems(tier):
-    return [LinkSystem(tier, "one-link", False), LinkSystem(tier, "two-links", True)]
+    return [LinkSystem(tier, "one-link", False), LinkSystem(tier, "two-links", True), SphinxLinkSystem(tier)]
